@@ -55,6 +55,9 @@ def read(repo, rel, table):
     return strip_comments(open(p, encoding="utf-8").read())
 
 
+CHAR_LITERAL_AT = re.compile(r"'(?:\\u\{[0-9a-fA-F]+\}|\\x[0-9a-fA-F]{2}|\\.|[^'\\\n])'")
+
+
 def block_after(src, start_idx, open_ch="{", close_ch="}"):
     """text of the balanced block starting at the first open_ch at/after start_idx"""
     i = src.find(open_ch, start_idx)
@@ -71,6 +74,8 @@ def block_after(src, start_idx, open_ch="{", close_ch="}"):
                 in_str = False
         elif ch == '"':
             in_str = True
+        elif ch == "'" and CHAR_LITERAL_AT.match(src, j):
+            j = CHAR_LITERAL_AT.match(src, j).end() - 1       # '{', '}', '"', '\'' are characters, not delimiters (lifetimes don't match)
         elif ch == open_ch:
             depth += 1
         elif ch == close_ch:
@@ -135,8 +140,19 @@ def gen_varint_arms(repo):
     if not re.search(r"required_bits\s*=\s*u64::BITS\s*-\s*value\.leading_zeros\(\)", bu):
         raise ExtractionError(T, rel, "encode_varuint: required_bits is not `u64::BITS - value.leading_zeros()`")
     bs = fn_body(src, "encode_varint", T, rel)
-    if not (re.search(r"i64::BITS\s*-\s*match\s+value\.is_negative\(\)", bs) and re.search(r"false\s*=>\s*value\.leading_zeros\(\)", bs)
-            and re.search(r"true\s*=>\s*value\.leading_ones\(\)", bs) and re.search(r"required_bits\s*\+=\s*1", bs)):
+    # modelled: required_bits = i64::BITS - (leading_ones if negative else leading_zeros) + 1. The selection may be written as a
+    # `match value.is_negative() { false => …, true => … }` (arms in either order) or as an `if`/`else`, directly or through a local.
+    lz, lo = r"value\.leading_zeros\(\)", r"value\.leading_ones\(\)"
+    neg, nonneg = r"(?:value\.is_negative\(\)|value\s*<\s*0)", r"(?:!\s*value\.is_negative\(\)|value\s*>=\s*0|value\.is_positive\(\)\s*\|\|\s*value\s*==\s*0)"
+    sel = (r"(?:match\s+value\.is_negative\(\)\s*\{\s*(?:false\s*=>\s*" + lz + r"\s*,\s*true\s*=>\s*" + lo + r"|true\s*=>\s*" + lo + r"\s*,\s*false\s*=>\s*" + lz + r")\s*,?\s*\}"
+           r"|if\s+" + neg + r"\s*\{\s*" + lo + r"\s*\}\s*else\s*\{\s*" + lz + r"\s*\}"
+           r"|if\s+" + nonneg + r"\s*\{\s*" + lz + r"\s*\}\s*else\s*\{\s*" + lo + r"\s*\})")
+    direct = re.search(r"required_bits\s*(?::\s*u32\s*)?=\s*i64::BITS\s*-\s*" + sel, bs)
+    via = re.search(r"\blet\s+(\w+)\s*(?::\s*u32\s*)?=\s*" + sel + r"\s*;", bs)
+    via = via and re.search(r"required_bits\s*(?::\s*u32\s*)?=\s*i64::BITS\s*-\s*" + re.escape(via.group(1)) + r"\s*;", bs)
+    n_sel = len(re.findall(r"leading_zeros|leading_ones", bs))
+    if not ((direct or via) and n_sel == 2 and len(re.findall(r"required_bits\s*\+=\s*1\s*;", bs)) == 1
+            and len(re.findall(r"\brequired_bits\s*[-+*/|&^]?=(?!=)", bs)) == 2):
         raise ExtractionError(T, rel, "encode_varint: required_bits computation has an unexpected shape")
     sarms, sshift = enc_arms("encode_varint", "i64")
     uarms, ushift = enc_arms("encode_varuint", "u64")
@@ -222,6 +238,25 @@ def strip_test_modules(src):
 PANIC_PAT = re.compile(r"\b(todo!|unimplemented!|panic!|unreachable!|assert!|assert_eq!|assert_ne!)\s*\(|\.unwrap\(\)|\.expect\(")
 
 
+MIN_OF_ANNOUNCED_AND_REMAINING = re.compile(
+    r"(?:(?:usize|core::cmp|std::cmp|cmp)::)?min\((?:length,decoder\.remaining\(\)|decoder\.remaining\(\),length)\)"
+    r"|length\.min\(decoder\.remaining\(\)\)|decoder\.remaining\(\)\.min\(length\)")
+
+
+def reservation_argument(body, upto, arg):
+    """whitespace-free argument of a `try_reserve*` call; a plain local name stands for the expression of its (single, immutable)
+    `let` binding in front of the call, so that `let capacity = usize::min(..); v.try_reserve_exact(capacity)?` reads like the inline form"""
+    arg = re.sub(r"\s+", "", arg)
+    for _ in range(3):
+        if not re.fullmatch(r"[a-z_]\w*", arg) or arg == "length":
+            break
+        binds = re.findall(r"\blet\s+(mut\s+)?" + re.escape(arg) + r"\s*(?::\s*usize\s*)?=(?!=)\s*([^;]+);", body[:upto])
+        if len(binds) != 1 or binds[0][0]:
+            break
+        arg = re.sub(r"\s+", "", binds[0][1])
+    return arg
+
+
 def gen_codec_panics(repo):
     T = "CodecPanics"
     sites = []
@@ -248,9 +283,8 @@ def gen_codec_panics(repo):
     if not r:
         reserve = "announced * 0"  # no reservation at all
     else:
-        arg = re.sub(r"\s+", "", r.group(1))
-        if arg in ("usize::min(length,decoder.remaining())", "length.min(decoder.remaining())", "core::cmp::min(length,decoder.remaining())",
-                   "usize::min(decoder.remaining(),length)"):
+        arg = reservation_argument(body, r.start(), r.group(1))
+        if MIN_OF_ANNOUNCED_AND_REMAINING.fullmatch(arg):
             reserve = "min announced remaining"
         elif arg == "length":
             reserve = "announced + remaining * 0"
@@ -267,9 +301,8 @@ def gen_codec_panics(repo):
     if not r:
         vreserve = "announced * 0"
     else:
-        arg = re.sub(r"\s+", "", r.group(1))
-        if arg in ("usize::min(length,decoder.remaining())", "length.min(decoder.remaining())", "core::cmp::min(length,decoder.remaining())",
-                   "usize::min(decoder.remaining(),length)"):
+        arg = reservation_argument(vbody, r.start(), r.group(1))
+        if MIN_OF_ANNOUNCED_AND_REMAINING.fullmatch(arg):
             vreserve = "min announced remaining"
         elif arg == "length":
             vreserve = "announced + remaining * 0"
@@ -284,10 +317,10 @@ def gen_codec_panics(repo):
     rs = re.search(r"vector\.try_reserve(?:_exact)?\(([^;]*)\)\?;", sbody)
     if rs is None:
         raise ExtractionError(T, rel, "String::decode_from no longer reserves through try_reserve*: not understood")
-    sarg = re.sub(r"\s+", "", rs.group(1))
+    sarg = reservation_argument(sbody, rs.start(), rs.group(1))
     if rd and rd.start() < rs.start() and sarg == "length":
         sreserve = "if announced ≤ remaining then announced else 0"      # the read fails first when the bytes are not there
-    elif sarg in ("usize::min(length,decoder.remaining())", "length.min(decoder.remaining())"):
+    elif MIN_OF_ANNOUNCED_AND_REMAINING.fullmatch(sarg):
         sreserve = "min announced remaining"
     elif sarg == "length":
         sreserve = "announced + remaining * 0"
@@ -366,6 +399,28 @@ def gen_plugin_spec(repo):
     rel = "slicec/src/slice_options.rs"
     src = read(repo, rel, T)
     body = fn_body(src, "plugin_parser", T, rel)
+    # The shape assertions below are written with the local names the function had when they were written. Local names carry no
+    # meaning, so the names in use are discovered from their (unambiguous) defining occurrences and mapped back before matching.
+    sigm = re.search(r"\bfn\s+plugin_parser\s*(?:<[^>]*>)?\s*\(\s*(\w+)\s*:\s*&(?:'\w+\s+)?str\s*\)", src)
+    roles = {
+        "s": sigm.group(1) if sigm else None,
+        "char_iter": (re.search(r"\blet\s+mut\s+(\w+)\s*=\s*\w+\.chars\(\)\.peekable\(\)\s*;", body) or [None, None])[1],
+        "string_buffer": (re.search(r"\blet\s+mut\s+(\w+)\s*=\s*&mut\s+\w+\s*;", body) or [None, None])[1],
+        "plugin_path": (re.search(r"\blet\s+mut\s+\w+\s*=\s*&mut\s+(\w+)\s*;", body) or [None, None])[1],
+        "plugin_args": (re.search(r"\b(\w+)\.push\(\s*Default::default\(\)\s*\)", body) or [None, None])[1],
+        "state": (re.search(r"\blet\s+mut\s+(\w+)\s*=\s*State::Path\s*;", body) or [None, None])[1],
+        "c": (re.search(r"\bwhile\s+let\s+Some\(\s*(\w+)\s*\)\s*=\s*\w+\.next\(\)", body) or [None, None])[1],
+        "path": (re.search(r"\blet\s+(\w+)\s*=\s*\w+\.trim\(\)\.to_owned\(\)\s*;", body) or [None, None])[1],
+        "args": (re.search(r"\blet\s+(\w+)\s*(?::[^=;]+)?=\s*\w+\s*\.into_iter\(\)", body) or [None, None])[1],
+        "arg": (re.search(r"\bfor\s+(\w+)\s+in\s+&\s*\w+\s*\{", body) or [None, None])[1],
+    }
+    kv = re.search(r"\.map\(\s*\|\s*\(\s*(\w+)\s*,\s*(\w+)\s*\)\s*\|", body)
+    if kv:
+        roles["key"], roles["value"] = kv.group(1), kv.group(2)
+    found = {v: k for k, v in roles.items() if v}
+    if len(found) == len([v for v in roles.values() if v]):          # the discovered names are pairwise distinct
+        body = re.sub(r"(?<![\w.])(" + "|".join(re.escape(n) for n in sorted(found, key=len, reverse=True)) + r")\b(?!\s*::)",
+                      lambda mm: found[mm.group(1)], body) if found else body
     m = re.search(r"match\s+c\s*", body)
     if not m:
         raise ExtractionError(T, rel, "`match c` not found in plugin_parser")
@@ -501,12 +556,16 @@ def gen_emit_format(repo):
     pre = dict(re.findall(r'DiagnosticLevel::(\w+)\s*=>\s*console::style\(format!\("([^"\\\[]*) \[\{code\}\]"\)\)', hbody))
     if set(pre) != {"Error", "Warning"} or not re.search(r"DiagnosticLevel::Allowed\s*=>\s*continue", hbody):
         raise ExtractionError(T, rel, "prefix match of emit_diagnostics_in_human not understood")
-    fmts = re.findall(r'writeln!\(\s*self\.output\s*,\s*"([^"]*)"', hbody)
+    def positional(fmt):
+        """`{name}` / `{name:spec}` (an identifier captured from the scope) prints exactly like `{}` / `{:spec}` with that argument"""
+        return re.sub(r"(?<!\{)\{[A-Za-z_]\w*(:[^{}]*)?\}(?!\})", lambda mm: "{" + (mm.group(1) or "") + "}", fmt)
+
+    fmts = [positional(f) for f in re.findall(r'writeln!\(\s*self\.output\s*,\s*"([^"]*)"', hbody)]
     note = re.search(r'console::style\("([^"\\]*)"\)\.blue\(\)\.bold\(\)', hbody)
-    if fmts != ["{prefix}: {}", "{}: {}"] or not note:
+    if fmts != ["{}: {}", "{}: {}"] or not note:
         raise ExtractionError(T, rel, f"format strings of emit_diagnostics_in_human changed: {fmts}")
     sbody = fn_body(src, "emit_snippet", T, rel)
-    sf = re.findall(r'writeln!\(\s*self\.output\s*,\s*"([^"]*)"', sbody)
+    sf = [positional(f) for f in re.findall(r'writeln!\(\s*self\.output\s*,\s*"([^"]*)"', sbody)]
     arrow = re.search(r'console::style\("([^"\\]*)"\)', sbody)
     if sf != [" {} {}:{}:{}", "{}"] or not arrow:
         raise ExtractionError(T, rel, f"format strings of emit_snippet changed: {sf}")
@@ -551,6 +610,22 @@ def gen_emit_format(repo):
     span = struct_fields_raw(head, "Span")
     notef = struct_fields("slicec/src/diagnostics/mod.rs", "Note")
 
+    # message texts of the three diagnostic kinds whose message is not their payload and which the emit driver (Drv/C14) constructs:
+    # the *wording* belongs to errors.rs / lints.rs, not to the emitter, so it is read from there instead of being assumed
+    def template(rel_m, row_re, var, what):
+        msrc_ = read(repo, rel_m, T)
+        mm = re.search(row_re, msrc_, re.S)
+        if not mm:
+            raise ExtractionError(T, rel_m, f"message of {what} is not a single format!(\"…{{{var}}}…\") literal")
+        t = mm.group(1)
+        if t.count("{" + var + "}") != 1 or "\\" in t or re.search(r"\{(?!" + var + r"\})|(?<!\{" + var + r")\}", t):
+            raise ExtractionError(T, rel_m, f"message template of {what} `{t}` is not `<text>{{{var}}}<text>`")
+        pre, post = t.split("{" + var + "}")
+        return pre, post
+    msg_syntax = template("slicec/src/diagnostics/errors.rs", r'\(\s*"E\d+"\s*,\s*Syntax\s*,\s*format!\(\s*"([^"]*)"\s*,?\s*\)\s*,\s*message\s*,?\s*\)', "message", "Error::Syntax")
+    msg_dup = template("slicec/src/diagnostics/lints.rs", r'\(\s*DuplicateFile\s*,\s*format!\(\s*"([^"]*)"\s*,?\s*\)\s*,\s*path\s*,?\s*\)', "path", "Lint::DuplicateFile")
+    msg_dep = template("slicec/src/diagnostics/lints.rs", r'\(\s*Deprecated\s*,\s*if\s+let\s+Some\(\s*reason\s*\)\s*=\s*reason\s*\{[^{}]*(?:\{[^{}]*\}[^{}]*)*\}\s*else\s*\{\s*format!\(\s*"([^"]*)"\s*,?\s*\)\s*\}\s*,\s*identifier\s*,\s*reason\s*,?\s*\)', "identifier", "Lint::Deprecated (no reason)")
+
     def q(x):
         return '"' + x.replace("\\", "\\\\").replace('"', '\\"') + '"'
 
@@ -575,9 +650,14 @@ def arrow : String := {q(arrow.group(1))}
 /-- `EXPANDED_TAB` and the marker of an empty highlight in slice_file.rs -/
 def expandedTab : String := {q(tab.group(1))}
 def pointer : String := {q(ptr.group(1))}
+/-- message wording (text before / after the payload) of `Error::Syntax`, `Lint::DuplicateFile`, `Lint::Deprecated` without reason,
+    read from diagnostics/errors.rs and lints.rs; used only by the case generator of the `emit` engine -/
+def msgSyntax : String × String := ({q(msg_syntax[0])}, {q(msg_syntax[1])})
+def msgDuplicateFile : String × String := ({q(msg_dup[0])}, {q(msg_dup[1])})
+def msgDeprecated : String × String := ({q(msg_dep[0])}, {q(msg_dep[1])})
 end Slicec.Gen
 """
-    return text, len(keys) + len(loc) + len(span) + len(notef) + 8
+    return text, len(keys) + len(loc) + len(span) + len(notef) + 11
 
 
 # ------------------------------------------------------------------------------------------------
@@ -667,16 +747,19 @@ def gen_preproc_tables(repo):
     rel = "slicec/src/parsers/preprocessor/lexer.rs"
     src = read(repo, rel, T)
     body = fn_body(src, "lex_next_preprocessor_token", T, rel)
-    m = re.search(r"match\s+identifier\s*", body)
+    # the directive word: `let <name> = self.read_identifier(); match <name> { "define" => … }` — whatever the local is called
+    m = None
+    for lm in re.finditer(r"let\s+(\w+)\s*=\s*self\.read_identifier\(\)\s*;\s*", body):
+        m = re.compile(r"match\s+" + re.escape(lm.group(1)) + r"\s*(?=\{)").match(body, lm.end())
+        if m:
+            break
     if not m:
-        raise ExtractionError(T, rel, "`match identifier` not found in lex_next_preprocessor_token")
+        raise ExtractionError(T, rel, "`let <name> = self.read_identifier(); match <name> {` not found in lex_next_preprocessor_token")
     arms_src = block_after(body, m.end())
     if arms_src is None:
-        raise ExtractionError(T, rel, "arms of `match identifier` not found")
-    if not re.search(r"let\s+identifier\s*=\s*self\.read_identifier\(\)", body):
-        raise ExtractionError(T, rel, "`let identifier = self.read_identifier()` not found")
+        raise ExtractionError(T, rel, "arms of the directive `match` not found")
     kws = [(a, d) for a, _, _, d in re.findall(
-        r'"(\w*)"\s*=>\s*Some\(\s*(Ok|Err)\(\s*\(\s*start_location\s*,\s*(TokenKind|ErrorKind)::(\w+)', arms_src)]
+        r'"(\w*)"\s*=>\s*Some\(\s*(Ok|Err)\(\s*\(\s*\w+\s*,\s*(TokenKind|ErrorKind)::(\w+)', arms_src)]
     fb = re.search(r"\b([a-z_]\w*)\s*=>\s*\{[^{}]*?ErrorKind::(\w+)\s*\{\s*keyword", arms_src, re.S)
     if not fb:
         raise ExtractionError(T, rel, "fallback arm `keyword => { … ErrorKind::X { keyword … } }` not found")
@@ -813,6 +896,58 @@ def gen_panic_sites(repo):
     ledger_path = os.path.join(os.path.dirname(os.path.abspath(__file__)), "ledger", "panic_sites.json")
     ledger = json.load(open(ledger_path, encoding="utf-8")) if os.path.exists(ledger_path) else {}
 
+    # A site that was merely reformatted, re-bound to another local or whose enclosing fn was renamed is still the same site:
+    # an unmapped key inherits the disposition of a ledger entry that disappeared from the same file at the same time when both
+    # have the same panic-capable *expressions* (receiver chain + construct), e.g. `slice_file.module.as_ref().unwrap()`.
+    def cores(key):
+        text = re.sub(r" #\d+$", "", key.split("::", 2)[2])
+        out = []
+        for m in SLICEC_PANIC_PAT.finditer(text):
+            i, depth = m.start(), 0
+            while i > 0:
+                ch = text[i - 1]
+                if ch in ")]":
+                    depth += 1
+                elif ch in "([":
+                    if depth == 0:
+                        break
+                    depth -= 1
+                elif depth == 0 and not (ch.isalnum() or ch in "_.:?&!<>'\""):
+                    break
+                i -= 1
+            expr = re.sub(r"\s+", "", text[i:m.end()])
+            for n, cp in enumerate(re.findall(r"\|(\w+)\|", expr)):          # closure parameters are bound names
+                expr = re.sub(r"\b" + re.escape(cp) + r"\b", "$%d" % n, expr)
+            out.append(expr)
+        return tuple(out)
+
+    def fn_exists(rel_, name):
+        try:
+            return re.search(r"\bfn\s+" + re.escape(name) + r"\b", read(repo, rel_, T)) is not None
+        except ExtractionError:
+            return False
+
+    inherited, moved = {}, []
+    present = set(keys)
+    gone = [k for k in ledger if k not in present]                # in ledger (= source) order
+    groups = {}
+    for k in keys:
+        if k not in ledger and cores(k):
+            groups.setdefault((k.split("::", 2)[0], cores(k)), []).append(k)
+    for (rel_, c), fresh in groups.items():
+        cands = [g for g in gone if g.split("::", 2)[0] == rel_ and cores(g) == c]
+        # same enclosing fn, or the old fn no longer exists in the file (it was renamed)
+        ok = [g for g in cands if any(g.split("::", 2)[1] == k.split("::", 2)[1] for k in fresh) or not fn_exists(rel_, g.split("::", 2)[1])]
+        if len(ok) == len(fresh):                                  # one-to-one, in source order
+            for g, k in zip(ok, fresh):
+                inherited[k] = ledger[g]
+                moved.append((g, k))
+                gone.remove(g)
+    ledger = dict(ledger)
+    for old_key, new_key in moved:
+        ledger[new_key] = inherited[new_key]
+        del ledger[old_key]
+
     def q(x):
         return '"' + x.replace("\\", "\\\\").replace('"', '\\"') + '"'
     classes = ("model", "unreachable", "internal", "environment", "reachable")
@@ -824,6 +959,12 @@ def gen_panic_sites(repo):
             cls = "unmapped"
         rows.append(f"  ({q(k)}, SiteClass.{cls}, {q(disp)})")
     stale = sorted(set(ledger) - set(keys))
+    # name the offending sites in the check's output (every non-TABLE line of the translator is reported as a broken obligation)
+    for k in keys:
+        if k not in ledger:
+            print(f"PanicSites: site not in the ledger (classify it in translator/ledger/panic_sites.json): {k}")
+    for k in stale:
+        print(f"PanicSites: ledger entry whose site is gone (remove or re-key it): {k}")
     text = "-- GENERATED by translator/extract.py from slicec/src + translator/ledger/panic_sites.json — do not edit.\nnamespace Slicec.Gen\n" \
            "/-- class of a panic-capable site: `model` the model has this outcome branch; `unreachable` shown or argued unreachable;\n" \
            "    `internal` guards an invariant established by earlier phases; `environment` needs a failing output stream (outside the\n" \
@@ -832,7 +973,10 @@ def gen_panic_sites(repo):
            "/-- (site = file::fn::normalised text, class, disposition text of the ledger) -/\n" \
            "def panicSites : List (String × SiteClass × String) := [\n" + ",\n".join(rows) + "]\n" \
            "/-- ledger entries whose site no longer exists in the source -/\n" \
-           "def staleLedgerKeys : List String := [" + ", ".join(q(k) for k in stale) + "]\nend Slicec.Gen\n"
+           "def staleLedgerKeys : List String := [" + ", ".join(q(k) for k in stale) + "]\n" \
+           "/-- (ledger key, current key): sites whose line was reformatted / re-bound / whose fn was renamed; they keep their disposition\n" \
+           "    because the panic-capable expression is unchanged — update the keys in the ledger at the next opportunity -/\n" \
+           "def movedPanicSites : List (String × String) := [" + ", ".join(f"({q(a)}, {q(b)})" for a, b in moved) + "]\nend Slicec.Gen\n"
     return text, len(keys)
 
 
@@ -858,7 +1002,20 @@ def gen_driver_shape(repo):
     for m in re.finditer(r"\bif\s+([^{};]+?)\s*\{", body):
         blk = block_after(body, m.end() - 1)
         if blk is not None and "spawn_plugin_process" in blk:
-            conj += [ws(c) for c in m.group(1).split("&&")]
+            cond = m.group(1)
+            # a condition that is a plain local name (`let run = a && b; if run {`) stands for the expression it was bound to;
+            # the binding must be immutable and the only one of that name in front of the `if`
+            for _ in range(3):
+                if not re.fullmatch(r"!?\s*[a-z_]\w*", cond.strip()):
+                    break
+                neg, name = cond.strip().startswith("!"), cond.strip().lstrip("!").strip()
+                binds = re.findall(r"\blet\s+(mut\s+)?" + re.escape(name) + r"\s*(?::\s*bool\s*)?=(?!=)\s*([^;]+);", body[:m.start()])
+                if len(binds) != 1 or binds[0][0]:
+                    break
+                if neg and "&&" in binds[0][1]:
+                    break
+                cond = ("!" if neg else "") + binds[0][1]
+            conj += [ws(c) for c in cond.split("&&")]
     # ---- main.rs: collect_plugin_output ---------------------------------------------------------
     cb = fn_body(src, "collect_plugin_output", T, rel)
     mm = re.search(r"match\s+output\s*\.\s*status\s*\.\s*code\s*\(\s*\)\s*", cb)
@@ -952,6 +1109,11 @@ def gen_driver_shape(repo):
     pnames = {"attribute_patcher": "attributes", "type_ref_patcher::patch_ast": "typeRefs", "comment_link_patcher::patch_ast": "links"}
     rel4 = "slicec/src/validators/mod.rs"
     vb = fn_body(read(repo, rel4, T), "validate_ast", T, rel4)
+    # the receiver of `has_errors()` is the state's diagnostics, under whatever local name validate_ast gives it
+    vsig = re.search(r"\bfn\s+validate_ast\s*\(\s*(\w+)\s*:", read(repo, rel4, T))
+    vstate = re.escape(vsig.group(1)) if vsig else r"compilation_state"
+    diag_recv = r"(?:" + vstate + r"\s*\.\s*diagnostics" + "".join(
+        "|" + re.escape(n) for n in re.findall(r"\blet\s+(\w+)\s*=\s*&mut\s+" + vstate + r"\s*\.\s*diagnostics\s*;", vb)) + ")"
     for name, gate in top:
         if name == "parse":
             rows.append(("parse", gate))
@@ -969,7 +1131,7 @@ def gen_driver_shape(repo):
                 (r"\bcycle_detection::detect_cycles\s*\(", "call", "cycles"),
                 (r"\bidentifiers::check_for_redefinitions\s*\(", "call", "redefinitions"),
                 (r"\.\s*visit_with\s*\(", "call", "visitor"),
-                (r"\bif\s+diagnostics\s*\.\s*has_errors\s*\(\s*\)\s*\{\s*return\s*;\s*\}", "check", "-"),
+                (r"\bif\s+" + diag_recv + r"\s*\.\s*has_errors\s*\(\s*\)\s*\{\s*return\s*;\s*\}", "check", "-"),
             ], gate == "if-clean", rel4)
             rows += sub
     have = [n for n, _g in rows]
@@ -1044,7 +1206,13 @@ def gen_resolve_kinds(repo):
     if len(wants) < 5:
         raise ExtractionError(T, rel3, "PatchKind variants not understood")
     rbody = fn_body(src3, "resolve_definition", T, rel3)
-    if not re.search(r"find_node_with_scope\(\s*&identifier\.value\s*,\s*type_ref\.module_scope\(\)\s*\)", rbody):
+    fm = re.search(r"find_node_with_scope\(\s*&identifier\.value\s*,\s*([^(),]+(?:\(\s*\))?)\s*\)", rbody)
+    scope_arg = re.sub(r"\s+", "", fm.group(1)) if fm else ""
+    if re.fullmatch(r"[a-z_]\w*", scope_arg):      # a local: it stands for the expression of its single immutable binding
+        binds = re.findall(r"\blet\s+(mut\s+)?" + re.escape(scope_arg) + r"\s*(?::[^=;]+)?=(?!=)\s*([^;]+);", rbody[:fm.start()])
+        if len(binds) == 1 and not binds[0][0]:
+            scope_arg = re.sub(r"\s+", "", binds[0][1])
+    if scope_arg != "type_ref.module_scope()":
         raise ExtractionError(T, rel3, "resolve_definition no longer looks the identifier up in the reference's module scope")
 
     rel4 = "slicec/src/diagnostics/errors.rs"
@@ -1169,19 +1337,20 @@ def gen_lints(repo):
     dsrc = read(repo, rel3, T)
     upd = fn_body(dsrc, "into_updated", T, rel3)
     by = re.sub(r"\s+", "", fn_body(upd, "is_lint_allowed_by", T, rel3))
-    mexact = re.fullmatch(r'identifiers\.any\(\|identifier\|identifier=="(\w+)"\|\|identifier==lint\.code\(\)\)', by)
-    mfold = re.fullmatch(r'identifiers\.any\(\|identifier\|identifier\.eq_ignore_ascii_case\("(\w+)"\)\|\|identifier\.eq_ignore_ascii_case\(lint\.code\(\)\)\)', by)
+    # closure parameters are bound names: `|identifier| identifier == ..` and `|id| id == ..` are the same function
+    mexact = re.fullmatch(r'identifiers\.any\(\|(\w+)\|\1=="(\w+)"\|\|\1==lint\.code\(\)\)', by)
+    mfold = re.fullmatch(r'identifiers\.any\(\|(\w+)\|\1\.eq_ignore_ascii_case\("(\w+)"\)\|\|\1\.eq_ignore_ascii_case\(lint\.code\(\)\)\)', by)
     if mexact:
-        all_kw, ignore_case = mexact.group(1), False
+        all_kw, ignore_case = mexact.group(2), False
     elif mfold:
-        all_kw, ignore_case = mfold.group(1), True
+        all_kw, ignore_case = mfold.group(2), True
     else:
         raise ExtractionError(T, rel3, "is_lint_allowed_by: comparison not understood: " + by[:120])
     if all_kw not in lits:
         raise ExtractionError(T, rel3, f"the catch-all identifier `{all_kw}` is not an allowable identifier")
     bya = re.sub(r"\s+", "", fn_body(upd, "is_lint_allowed_by_attributes", T, rel3))
-    if not ("attributable.all_attributes()" in bya and "a.downcast::<attributes::Allow>()" in bya
-            and "allowed.any(|allow|is_lint_allowed_by(allow.allowed_lints.iter(),lint))" in bya):
+    if not ("attributable.all_attributes()" in bya and re.search(r"\.filter_map\(\|(\w+)\|\1\.downcast::<attributes::Allow>\(\)\)", bya)
+            and re.search(r"\.any\(\|(\w+)\|is_lint_allowed_by\(\1\.allowed_lints\.iter\(\),lint\)\)", bya)):
         raise ExtractionError(T, rel3, "is_lint_allowed_by_attributes has an unexpected shape")
     loop_m = re.search(r"for\s+diagnostic\s+in\s+&mut\s+self\.0\s*", upd)
     if not loop_m:
@@ -1197,16 +1366,23 @@ def gen_lints(repo):
              "ifis_lint_allowed_by_attributes(entity,lint){diagnostic.level=DiagnosticLevel::Allowed;}"]
     pos = 0
     for stp in steps:
-        q = loop.find(stp, pos)
-        if q < 0:
+        # literal match, except that the parameter of a one-parameter closure may have any name
+        rx = re.sub(r"\\\|f\\\|f\\\.", lambda _m: r"\|(\w+)\|\1\.", re.escape(stp))
+        q = re.compile(rx).search(loop, pos)
+        if not q:
             raise ExtractionError(T, rel3, "into_updated: step not found (or out of order): " + stp[:70])
-        pos = q + len(stp)
+        pos = q.end()
     guarded = block_after(loop, 0)
     if guarded is None or loop != steps[0] + guarded + "}":
         raise ExtractionError(T, rel3, "into_updated: the loop body is not exactly one `if let DiagnosticKind::Lint(lint) = &diagnostic.kind { … }`")
     if not loop.startswith(steps[0]) or loop.count("diagnostic.level=") != 3 or len(re.findall(r"\.level\s*=[^=]", upd)) != 3:
         raise ExtractionError(T, rel3, "into_updated: the loop body is not a single `if let Lint` with three level assignments")
-    newb = re.sub(r"\s+", "", fn_body(dsrc, "new", T, rel3))
+    # `fn new` of `impl Diagnostic` (the file also has `Diagnostics::new`; which comes first in the file is immaterial)
+    im = re.search(r"\bimpl\s+Diagnostic\s*\{", dsrc)
+    ib = block_after(dsrc, im.end() - 1) if im else None
+    if ib is None:
+        raise ExtractionError(T, rel3, "`impl Diagnostic {` not found")
+    newb = re.sub(r"\s+", "", fn_body(ib, "new", T, rel3))
     if "DiagnosticKind::Error(_)=>DiagnosticLevel::Error," not in newb or "DiagnosticKind::Lint(lint)=>lint.get_default_level()," not in newb:
         raise ExtractionError(T, rel3, "Diagnostic::new: initial level has an unexpected shape")
 
@@ -1449,12 +1625,17 @@ def gen_comment_keywords(repo):
     T, rel = "CommentKeywords", "slicec/src/parsers/comments/lexer.rs"
     src = read(repo, rel, T)
     body = fn_body(src, "read_tag_keyword", T, rel)
-    arms = re.findall(r'"([A-Za-z0-9_]+)"\s*=>\s*Ok\(\(\s*start_location\s*,\s*TokenKind::(\w+)\s*,\s*self\.cursor\s*\)\)', body)
+    # the start of the token is `self.cursor` saved in a local before the '@' is consumed; its name is read, not assumed
+    lm = re.search(r"\blet\s+(\w+)\s*=\s*self\.cursor\s*;", body)
+    if not lm:
+        raise ExtractionError(T, rel, "read_tag_keyword does not save `self.cursor` in a local first")
+    start = re.escape(lm.group(1))
+    arms = re.findall(r'"([A-Za-z0-9_]+)"\s*=>\s*Ok\(\(\s*' + start + r'\s*,\s*TokenKind::(\w+)\s*,\s*self\.cursor\s*\)\)', body)
     if not arms:
-        raise ExtractionError(T, rel, "no `\"kw\" => Ok((start_location, TokenKind::X, self.cursor))` arms in read_tag_keyword")
-    if not re.search(r'""\s*=>\s*Err\(\(\s*start_location\s*,\s*ErrorKind::MissingTag', body):
+        raise ExtractionError(T, rel, "no `\"kw\" => Ok((<start>, TokenKind::X, self.cursor))` arms in read_tag_keyword")
+    if not re.search(r'""\s*=>\s*Err\(\(\s*' + start + r'\s*,\s*ErrorKind::MissingTag', body):
         raise ExtractionError(T, rel, "the `\"\" => MissingTag` arm is gone")
-    if not re.search(r'\w+\s*=>\s*Err\(\(\s*start_location\s*,\s*ErrorKind::UnknownTag', body):
+    if not re.search(r'\w+\s*=>\s*Err\(\(\s*' + start + r'\s*,\s*ErrorKind::UnknownTag', body):
         raise ExtractionError(T, rel, "the catch-all UnknownTag arm is gone")
     m = re.search(r'let\s+is_valid\s*=\s*match\s+token_kind', body)
     if not m:
@@ -1649,9 +1830,22 @@ def gen_encoder_shapes(repo):
         raise ExtractionError(T, rel2, f"expected two `slice_encoder.encode(&…)?` calls, found {seq_calls}")
     if body.find(opn.group(0)) > body.find("slice_encoder.encode(&"):
         raise ExtractionError(T, rel2, "the operation name is not encoded first")
-    routing = re.search(r"match\s+parsed_file\.is_source\s*\{\s*true\s*=>\s*(\w+)\.push\(converted_file\)\s*,\s*false\s*=>\s*(\w+)\.push\(converted_file\)\s*,?\s*\}", body)
-    if not routing:
-        raise ExtractionError(T, rel2, "`match parsed_file.is_source { true => X.push(converted_file), false => Y.push(converted_file) }` not found")
+    # source files go to one vector, reference files to the other: as a `match` on the bool (arms in either order) or as `if`/`else`
+    push = r"(\w+)\.push\(converted_file\)\s*[;,]?"
+    routing = None
+    for pat, swap in ((r"match\s+parsed_file\.is_source\s*\{\s*true\s*=>\s*" + push + r"\s*false\s*=>\s*" + push + r"\s*\}", False),
+                      (r"match\s+parsed_file\.is_source\s*\{\s*false\s*=>\s*" + push + r"\s*true\s*=>\s*" + push + r"\s*\}", True),
+                      (r"if\s+parsed_file\.is_source\s*\{\s*" + push + r"\s*\}\s*else\s*\{\s*" + push + r"\s*\}", False),
+                      (r"if\s+!\s*parsed_file\.is_source\s*\{\s*" + push + r"\s*\}\s*else\s*\{\s*" + push + r"\s*\}", True)):
+        mm = re.search(pat, body)
+        if mm:
+            class _R:          # group(1) = vector of the source files, group(2) = vector of the reference files
+                g = (mm.group(2), mm.group(1)) if swap else (mm.group(1), mm.group(2))
+                def group(self, i): return self.g[i - 1]
+            routing = _R()
+            break
+    if not routing or len(re.findall(r"\.push\(converted_file\)", body)) != 2:
+        raise ExtractionError(T, rel2, "`match parsed_file.is_source { true => X.push(converted_file), false => Y.push(converted_file) }` (or the if/else form) not found")
     if not re.search(r"for\s+parsed_file\s+in\s+parsed_files\b", body) or not re.search(r"definition_types::SliceFile::from\(parsed_file\)", body):
         raise ExtractionError(T, rel2, "the conversion loop `for parsed_file in parsed_files { … SliceFile::from(parsed_file) … }` not found")
     skips = bool(re.search(r"if\s+parsed_file\.module\.is_none\(\)\s*\{\s*continue;\s*\}", body))
@@ -1969,8 +2163,33 @@ def gen_visitor_reach(repo):
     vi = fn_body(src, "visit_interface", T, rel)
     if "validate_attributes(enum_def" not in ve or "validate_attributes(interface" not in vi:
         raise ExtractionError(T, rel, "visit_enum / visit_interface no longer validate the attributes of the definition itself")
-    und = bool(re.search(r"if\s+let\s+Some\((\w+)\)\s*=\s*&enum_def\.underlying\s*\{\s*attribute::validate_attributes_of\(\1\s*,", ve))
-    bas = bool(re.search(r"for\s+(\w+)\s+in\s+&interface\.bases\s*\{\s*attribute::validate_attributes_of\(\1\s*,", vi))
+    # The question is semantic ("is validate_attributes_of applied to the underlying type / to every base?"), so the call may be
+    # written with or without a path prefix, and the reference may be bound by `if let`, `match`, `for` or an iterator adaptor.
+    CALL = r"(?:\b\w+\s*::\s*)*\bvalidate_attributes_of\s*\(\s*(\w+)\s*,"
+
+    def applied(body, field, what):
+        """True: some validate_attributes_of call receives a name bound from `field`; False: there is no such call at all;
+        ExtractionError: there is a call but its argument could not be traced to `field`"""
+        f = re.escape(field).replace(r"\.", r"\s*\.\s*")
+        src_expr = r"&?\s*" + f + r"(?:\s*\.\s*(?:as_ref|iter)\s*\(\s*\))?"
+        args = re.findall(CALL, body)
+        if not args:
+            return False
+        for a in args:
+            a = re.escape(a)
+            binders = (
+                r"\bif\s+let\s+Some\(\s*" + a + r"\s*\)\s*=\s*" + src_expr + r"\s*\{",                       # if let Some(a) = &x.f {
+                r"\bmatch\s+" + src_expr + r"\s*\{[^{}]*\bSome\(\s*" + a + r"\s*\)\s*=>",                    # match &x.f { Some(a) =>
+                r"\bfor\s+" + a + r"\s+in\s+" + src_expr + r"\s*\{",                                          # for a in &x.f {
+                f + r"\s*\.\s*(?:iter|as_ref)\s*\(\s*\)\s*\.\s*(?:for_each|map|inspect)\s*\(\s*\|\s*" + a + r"\s*\|",  # x.f.iter().for_each(|a|
+                r"\blet\s+Some\(\s*" + a + r"\s*\)\s*=\s*" + src_expr + r"\s*else\b",                        # let Some(a) = &x.f else
+            )
+            if any(re.search(b, body) for b in binders):
+                return True
+        raise ExtractionError(T, rel, f"{what}: validate_attributes_of is called, but its argument is not recognisably bound from `{field}`")
+
+    und = applied(ve, "enum_def.underlying", "visit_enum")
+    bas = applied(vi, "interface.bases", "visit_interface")
     if und != bas:
         raise ExtractionError(T, rel, "only one of enum underlying types / interface bases has its attributes validated: not modelled")
     text = "-- GENERATED by translator/extract.py from slicec/src/validators/mod.rs — do not edit.\nnamespace Slicec.Gen\n" \
@@ -1988,16 +2207,36 @@ def gen_comment_sanitize(repo):
     body = fn_body(src, "sanitize_message_lines", T, rel)
     if not re.search(r"MessageComponent::Link\(\s*_\s*\)\s*=>\s*\{\s*(\w+)\s*=\s*0\s*;\s*break\s*;\s*\}", body):
         raise ExtractionError(T, rel, "sanitize_message_lines: the `Link(_) => { common = 0; break; }` arm is gone")
+    # What is stripped: `X.replace_range(..V, "")`. V is a *character* boundary iff it is bound by a `let V = …;` whose right-hand side
+    # (possibly through one intermediate iterator binding) contains `.char_indices()`, `.nth(<count>)` and `.unwrap_or(<text>.len())`;
+    # otherwise V is used as a byte offset. Statement layout (one chain or several lets, line breaks) does not matter.
+    strips = re.findall(r"\w+\s*\.\s*replace_range\(\s*\.\.\s*(\w+)\s*,\s*\"\"\s*\)", body)
+    lets = {}
+    for lm in re.finditer(r"\blet\s+(?:mut\s+)?(\w+)\s*(?::[^=;]+)?=(?!=)\s*", body):   # (lets nest inside closures: scan, don't tile)
+        end = body.find(";", lm.end())
+        lets[lm.group(1)] = body[lm.end():end if end >= 0 else len(body)]
+
+    def char_boundary(v):
+        rhs = lets.get(v)
+        if rhs is None:
+            return False
+        mrecv = re.match(r"\s*(\w+)\s*\.\s*nth\(", rhs)
+        chain = rhs + (" " + lets.get(mrecv.group(1), "") if mrecv else "")
+        return bool(re.search(r"\.\s*char_indices\(\)", chain) and re.search(r"\.\s*nth\(\s*\w+\s*\)", rhs)
+                    and re.search(r"\.\s*unwrap_or\(\s*\w+\.len\(\)\s*\)", rhs))
+
+    wsp = r"(?:\|(\w+)\|\s*\1\.is_whitespace\(\)|\|(\w+)\|\s*char::is_whitespace\(\s*\*\2\s*\))"
+    cnt = r"\w+\.chars\(\)\s*\.count\(\)"
     new = {
-        "count": re.search(r"\w+\.chars\(\)\s*\.take_while\(\s*\|(\w+)\|\s*\1\.is_whitespace\(\)\s*\)\s*\.count\(\)", body),
-        "skip": re.search(r"if\s+\w+\.len\(\)\s*==\s*1\s*&&\s*\w+\s*==\s*\w+\.chars\(\)\s*\.count\(\)\s*\{\s*continue\s*;\s*\}", body),
+        "count": re.search(r"\w+\.chars\(\)\s*\.take_while\(\s*" + wsp + r"\s*\)\s*\.count\(\)", body),
+        "skip": re.search(r"if\s+(?:\w+\.len\(\)\s*==\s*1\s*&&\s*(?:\w+\s*==\s*" + cnt + "|" + cnt + r"\s*==\s*\w+)"
+                          r"|(?:\w+\s*==\s*" + cnt + "|" + cnt + r"\s*==\s*\w+)\s*&&\s*\w+\.len\(\)\s*==\s*1)\s*\{\s*continue\s*;\s*\}", body),
         "normalise": re.search(r"if\s+(\w+)\s*==\s*usize::MAX\s*\{\s*\1\s*=\s*0\s*;\s*\}", body),
-        "strip": re.search(r"\.char_indices\(\)[^;]*;\s*let\s+(\w+)\s*=\s*\w+\s*\.nth\(\s*\w+\s*\)\s*\.unwrap_or\(\s*\w+\.len\(\)\s*\)\s*;\s*"
-                           r"\w+\.replace_range\(\s*\.\.\1\s*,\s*\"\"\s*\)", body),
+        "strip": len(strips) == 1 and char_boundary(strips[0]),
     }
     old = {
         "count": re.search(r"let\s+(\w+)\s*=\s*\w+\.find\(\s*\|(\w+)\s*:\s*char\|\s*!\s*\2\.is_whitespace\(\)\s*\)\s*\.unwrap_or_default\(\)", body),
-        "strip": re.search(r"\w+\.replace_range\(\s*\.\.common_leading_whitespace\s*,\s*\"\"\s*\)", body),
+        "strip": len(strips) >= 1 and not any(char_boundary(v) for v in strips),
     }
     if all(new.values()) and not any(old.values()):
         chars = True
@@ -2024,18 +2263,42 @@ def gen_param_docs(repo):
     src = read(repo, rel, T)
     body = fn_body(src, "get_doc_comment_for_parameter", T, rel)
     conv = fn_body(src, "convert_operation", T, rel)
-    params = re.search(r"operation_comment\s*\.\s*params\s*\.\s*iter\(\)\s*\.find\(\|(\w+)\|\s*\1\.identifier\.value\s*==\s*parameter\.identifier\(\)\)", body)
+    # the names of the function's own parameters and locals are read from the source, not assumed
+    sig = re.search(r"\bfn\s+get_doc_comment_for_parameter\s*\(\s*(\w+)\s*:\s*&\s*\w+\s*(?:,\s*(\w+)\s*:\s*bool\s*)?,?\s*\)", src)
+    if not sig:
+        raise ExtractionError(T, rel, "get_doc_comment_for_parameter: signature is neither `(p: &Parameter)` nor `(p: &Parameter, flag: bool)`")
+    par, flag_name = re.escape(sig.group(1)), sig.group(2)
+    cm = re.search(r"\blet\s+(\w+)\s*=\s*(\w+)\.comment\(\)\?\s*;", body)
+    om = re.search(r"\blet\s+(\w+)\s*=\s*" + par + r"\.parent\(\)\s*;", body)
+    cm1 = re.search(r"\blet\s+(\w+)\s*=\s*" + par + r"\.parent\(\)\s*\.comment\(\)\?\s*;", body)
+    if cm and om and cm.group(2) == om.group(1):
+        com, op = re.escape(cm.group(1)), re.escape(om.group(1))
+    elif cm1:
+        com, op = re.escape(cm1.group(1)), par + r"\.parent\(\)"
+    else:
+        raise ExtractionError(T, rel, "get_doc_comment_for_parameter: the operation's doc comment is not bound by `let c = p.parent().comment()?;` "
+                                      "(or `let op = p.parent(); let c = op.comment()?;`)")
+    same_id = r"\.value\s*==\s*" + par + r"\.identifier\(\)"
+    params = re.search(com + r"\s*\.\s*params\s*\.\s*iter\(\)\s*\.find\(\|(\w+)\|\s*\1\.identifier" + same_id + r"\)", body)
     if not params:
         raise ExtractionError(T, rel, "get_doc_comment_for_parameter: the `@param` lookup by identifier is gone")
-    returns = re.search(r"operation_comment\s*\.\s*returns\s*\.\s*iter\(\)\s*\.find\(\|(\w+)\|\s*match\s*&\1\.identifier\s*\{\s*"
-                        r"Some\((\w+)\)\s*=>\s*\2\.value\s*==\s*parameter\.identifier\(\)\s*,\s*None\s*=>\s*(\w+)\s*,?\s*\}\)", body)
-    single = re.search(r"let\s+(\w+)\s*=\s*operation\.return_members\(\)\.len\(\)\s*==\s*1\s*;", body)
-    branch = re.search(r"let\s+message\s*=\s*if\s+is_return_member\s*\{", body)
-    calls = (re.search(r"operation\.parameters\(\)[^;]*?self\.convert_parameter\(\w+\s*,\s*false\)", conv, re.S),
-             re.search(r"operation\.return_members\(\)[^;]*?self\.convert_parameter\(\w+\s*,\s*true\)", conv, re.S))
-    if returns and single and branch and all(calls) and returns.group(3) == single.group(1):
+    head = com + r"\s*\.\s*returns\s*\.\s*iter\(\)\s*\.find\(\|(\w+)\|\s*"
+    some_arm, none_arm = r"Some\((\w+)\)\s*=>\s*\2" + same_id, r"None\s*=>\s*(\w+)"
+    returns = None
+    for pat, grp in ((head + r"match\s*&?\s*\1\.identifier(?:\.as_ref\(\))?\s*\{\s*" + some_arm + r"\s*,\s*" + none_arm + r"\s*,?\s*\}\)", 3),
+                     (head + r"match\s*&?\s*\1\.identifier(?:\.as_ref\(\))?\s*\{\s*None\s*=>\s*(?P<d>\w+)\s*,\s*Some\((?P<i>\w+)\)\s*=>\s*(?P=i)" + same_id + r"\s*,?\s*\}\)", "d"),
+                     (head + r"\1\.identifier\.as_ref\(\)\.map_or\(\s*(?P<d>\w+)\s*,\s*\|(?P<i>\w+)\|\s*(?P=i)" + same_id + r"\s*\)\s*\)", "d")):
+        mm = re.search(pat, body)
+        if mm:
+            returns = mm.group(grp)
+            break
+    single = re.search(r"let\s+(\w+)\s*=\s*" + op + r"\.return_members\(\)\.len\(\)\s*==\s*1\s*;", body)
+    branch = flag_name and re.search(r"let\s+\w+\s*=\s*if\s+" + re.escape(flag_name) + r"\s*\{", body)
+    calls = (re.search(r"\.parameters\(\)[^;]*?self\.convert_parameter\(\w+\s*,\s*false\)", conv, re.S),
+             re.search(r"\.return_members\(\)[^;]*?self\.convert_parameter\(\w+\s*,\s*true\)", conv, re.S))
+    if returns and single and branch and all(calls) and returns == single.group(1):
         flag = True
-    elif not returns and "returns" not in body and "is_return_member" not in src:
+    elif not returns and not re.search(r"\.\s*returns\b", body) and flag_name is None:
         flag = False
     else:
         raise ExtractionError(T, rel, "get_doc_comment_for_parameter / convert_operation have neither the `@returns`-aware nor the "
@@ -2074,13 +2337,17 @@ TABLES.update(tables_c04.tables(globals()))
 
 def main():
     repo, gen_dir = sys.argv[1], sys.argv[2]
-    wanted = sys.argv[3:] or list(TABLES)
+    args = sys.argv[3:]
+    if args and args[0] == "--others":            # every table except the named ones
+        wanted = [t for t in TABLES if t not in args[1:]]
+    else:
+        wanted = args or list(TABLES)
     os.makedirs(gen_dir, exist_ok=True)
     failed = False
     for name in wanted:
         try:
             text, rows = TABLES[name](repo)
-        except ExtractionError as e:
+        except Exception as e:                     # noqa: BLE001 - an extractor that crashes has not extracted
             print(f"EXTRACTION-FAILED {name} {e}")
             failed = True
             continue
